@@ -37,6 +37,11 @@ NS = 'romea::core::'
 
 
 def run(fx, R, tier):
+    # the neighbour query goes through the kd-tree wrapper and its nanoflann adaptor: their bodies belong to what this check reads (hidden-state /
+    # precision sweep), although nanoflann, not the library, calls the adaptor
+    for g in fx.functions.values():
+        if g.get('body') is not None and (g.get('cls') or '').startswith((NS + 'KdTree<', NS + 'NanoFlannAdaptor<')):
+            R.used(g)
     classes = sorted({f['cls'] for f in fx.functions.values() if f.get('cls', '').startswith(NS + 'NormalAndCurvatureEstimation<')})
     if len(classes) != 8:
         R.undecided('N1', 'NormalAndCurvatureEstimation', '%d instantiations (8 expected)' % len(classes))
@@ -228,6 +233,25 @@ def check_compute(fx, R, cq, cname, f):
         R.form(len(rl) == 1 and rl[0][2] == ('.computeNormalReliability', 'this'), 'N2', inst + ':reliability', 'reliability is %s' % (rl,), 'computeNormalReliability()', loc, 'E-SIB')
 
 
+def scalar_signature(ifnode, before):
+    """the early-return condition compares a member with a local that is a sum-like reduction of the neighbour indexes: (text of the definition, how)"""
+    c = strip_casts(ifnode['c'])
+    if not (c.get('k') == 'Bin' and c.get('op') == '=='):
+        return None
+    locs = [strip_casts(x_) for x_ in (c['l'], c['r']) if strip_casts(x_).get('k') == 'Ref' and strip_casts(x_).get('rk') == 'local']
+    mems = [strip_casts(x_) for x_ in (c['l'], c['r']) if strip_casts(x_).get('k') == 'Member']
+    if len(locs) != 1 or len(mems) != 1:
+        return None
+    for x in before:
+        if x.get('k') == 'Decl':
+            for v in x['vars']:
+                if v['id'] == locs[0].get('id') and v.get('init') is not None and v['t'].get('c') == 'int':
+                    calls = [y for y in walk(v['init']) if isinstance(y, dict) and y.get('k') == 'Call' and (y.get('fn') or '').split('<')[0].split('::')[-1] in ('inner_product', 'accumulate', 'reduce', 'transform_reduce')]
+                    if calls and 'neighborIndexes_' in pp(v['init']):
+                        return ('%s = %s' % (v['name'], pp(v['init'])[:100]), 'std::' + (calls[0].get('fn') or '').split('<')[0].split('::')[-1])
+    return None
+
+
 def _incr(t):
     """loop increment as an assignment the step evaluator understands: i++ / ++i -> i += 1"""
     if isinstance(t, tuple) and len(t) == 2 and t[0] in ('u++', '++u', 'u--', '--u'):
@@ -352,6 +376,11 @@ def check_plane(fx, R, cq, cname, f):
                 R.violated('N8', short_fn(cq.split('<')[0]) + '::planeEstimation_:shortcut', 'planeEstimation_ returns before the eigen-decomposition when `%s` (%s): the quantifier bounds only the RELATIVE eigen-gap of '
                            'the neighbourhood, not its size, so a finely sampled or small-unit cloud (all neighbours within a radius whose square is below the constant) takes the shortcut and its normal is whatever the '
                            'shortcut stores, not the direction of least variance; exact-plane normals and rotation equivariance are lost there [%s]' % (ctext, tol, cname), fx.rel(node['loc']), 'E-STATE')
+            elif scalar_signature(node, top[:dec_i]):
+                sig = scalar_signature(node, top[:dec_i])
+                R.violated('N8', short_fn(cq.split('<')[0]) + '::planeEstimation_:signature-shortcut', 'planeEstimation_ returns before the eigen-decomposition - keeping the eigenvalues and eigenvectors of the PREVIOUS '
+                           'point - when `%s`, where `%s`: one number computed by %s does not identify a set of k neighbour indexes (the index sets {0, 4, 5} and {1, 2, 6} have the same sum and the same sum of '
+                           'squares), so a point whose neighbourhood differs from the previous one can receive the previous plane, normal and curvature [%s]' % (ctext, sig[0], sig[1], cname), fx.rel(node['loc']), 'E-STATE')
             else:
                 R.undecided('N8', inst + ':shortcut', 'returns before the eigen-decomposition when `%s`; whether that condition is exact for the inputs of the quantifier is not decided' % ctext)
         if not exits:
